@@ -2,6 +2,8 @@ import PycModel.Proofs.StreamLemmas
 import PycModel.Proofs.LexerTotal
 import PycModel.Proofs.StreamRel
 import PycModel.Proofs.ParenExpr
+import PycModel.Proofs.RegexCost
+import PycModel.Generated.LexTables
 /-!
 # C16 — parsing work grows linearly, no backtracking blow-up
 
@@ -68,5 +70,12 @@ open PycModel.Climb in
 theorem precedence_climbing_fuel_linear (t : BT) (m : Nat) (h : WF binPrec m t) (k : List PT)
     (hk : StopAt binPrec m k) : climb binPrec (2 * t.size) m none (t.toks ++ k) = some (t, k) :=
   climb_correct binPrec t m h k hk _ (Nat.le_refl _)
+
+/-- obligation on the regenerated lexer rules: no rule nests unbounded repetitions deeper than its
+documented bound (the shape `(x+)*` on which a backtracking matcher goes exponential) -/
+theorem impl_star_height :
+    (Generated.lexCfg.rules.all fun r => decide (r.re.starHeight ≤ starBound r.name)) = true ∧
+    Generated.decConst.starHeight ≤ 1 ∧ Generated.strLit.starHeight ≤ 1 ∧
+    Generated.linePat.starHeight ≤ 1 ∧ Generated.pragmaPat.starHeight ≤ 1 := by decide
 
 end PycModel.C16
